@@ -136,10 +136,11 @@ Prior == IF Rich THEN 0..2 ELSE IF FaultSel = "base" THEN {0, 2} ELSE {0}
 \* calls that have already RETURNED before each call site and before the fault (the call stack must forget them)
 Helpers == IF Rich THEN 0..2 ELSE {1}
 \* how each procedure of the chain is declared / entered: plain; STATIC (its own kind of activation record); "rec": it
-\* first calls itself twice through ONE call site (the same call site is active several times, in a row)
+\* first calls itself twice through ONE call site (the same call site is active several times, in a row); "recback": the same,
+\* but the innermost activation returns and the fault happens one level up (the call site has been left once and is active once)
 \* (exhaustive configurations: only where the nesting dimension is small, or the product is out of reach)
 Mods == IF Rich \/ (FaultSel = "base" /\ MaxNest <= 1 /\ MaxCall <= 1) \/ (FaultSel = "base" /\ MaxNest = 0)
-        THEN {"plain", "static", "rec"} ELSE {"plain"}
+        THEN {"plain", "static", "rec", "recback"} ELSE {"plain"}
 
 VARIABLES phase, c
 vars == <<phase, c>>
